@@ -25,6 +25,14 @@ ASSUMPTIONS = [
     'and many more now go through the model correspondence (procstack_gen.corpus_inline, random_scenario_inline)',
     'generated programs are finite (a class only launches / executes later classes; callbacks only execute the last, leaf class); '
     'launch() and out() are only called from steps (a callback may run after its process was closed)',
+    'callbacks on another process: a process schedules callbacks on its creator (`creator.call_soon(cb)`, act p<k>; nothing when it '
+    'has none), from steps and from callbacks; a callback may end by raising an Exception (scn[cbraise]); the generated classes '
+    'override the public hook callback_excepted to take a sample and nothing else (the default implementation calls fail(): C03). '
+    'That hook runs after the callback\'s scope, in the callback\'s task: expected there is the previous value of that task = what '
+    'the code that called call_soon observed at that moment (Process.current() and PROCESS_STACK read at the call_soon site); when '
+    'that is not the owner the sample is one more hook outside the scope (F14, hook-outside-scope:callback_excepted); programs stay '
+    'finite: callbacks schedule only later callbacks, and a class that callbacks instantiate (directly or through children) only '
+    'schedules callbacks that instantiate nothing',
     'the hook clause of the property is a recorded finding (F14): lifecycle hooks fired by transition_to / the constructor / close() '
     'run outside _process_scope; the theorems C18_current_in_scope(_partial) exclude exactly those, C18_full_false proves the literal '
     'statement false of the model, and the monitors report them as hook-outside-scope:<hook>',
@@ -70,7 +78,7 @@ def check_runs(scn, runs, model_ok, name):
     model = common.Model(True).run('procstack', lines) if model_ok else None
     out = dict(name=name, n_runs=len(runs), n_ops=len(lines), divergences=[], failures={}, digests=set(), kinds={}, hooks_outside=set(),
                hooks_inside=set(), max_nest=0, max_tasks=0, max_procs=0, n_div=0, nontrivial=0, n_samples=0, max_inline=0, n_cancel=0,
-               n_absorbed_base=0, n_absorbed_cancel=0, n_inline_runs=0)
+               n_absorbed_base=0, n_absorbed_cancel=0, n_inline_runs=0, n_on_creator=0, n_cbexc=0, n_sandwich=0, n_cbexc_after_sandwich=0)
     for r, (a, n) in zip(runs, spans):
         il = pg.impl_lines(r, has_stack)
         sched = [c for c, _ in r['taken']]
@@ -101,10 +109,16 @@ def check_runs(scn, runs, model_ok, name):
             for o in ch.get('obs', []):
                 out['n_samples'] += 1
                 out['kinds'][o[1]] = out['kinds'].get(o[1], 0) + 1
-                if pg.is_lifecycle(o[1]):
+                if pg.is_outside_hook(o[1]):
                     (out['hooks_outside'] if o[2] != o[0] else out['hooks_inside']).add(o[1][2:])
                 else:
                     owners.add(o[0])
+                if o[1] == pg.CBEXC:
+                    out['n_cbexc'] += 1
+                    if o[4] and o[4][-1] != o[0] and o[0] in o[4]:   # the hook must find another process on top and the owner below it
+                        out['n_cbexc_after_sandwich'] += 1
+                elif pg.sandwiched(o[3]):
+                    out['n_sandwich'] += 1
         if len(ticked) >= 2 and len(owners) >= 2:
             out['nontrivial'] += 1
             out['digests'].add(common.digest(il))
@@ -116,6 +130,7 @@ def check_runs(scn, runs, model_ok, name):
         out['n_absorbed_base'] += r.get('absorbed', []).count('BaseBoom')
         out['n_absorbed_cancel'] += r.get('absorbed', []).count('CancelledError')
         out['n_inline_runs'] += 1 if r.get('max_inline', 0) > 0 else 0
+        out['n_on_creator'] += r.get('n_on_creator', 0)
     out['sample'] = dict(line=lines[0], ops=[ch['op'] for ch in runs[0]['chunks'][1:6]], impl=pg.impl_lines(runs[0], has_stack)[:2]) if runs else None
     return out
 
@@ -193,6 +208,21 @@ def run(ctx):
     if batch:
         jobs.append(('random', batch, ctx.model.available))
 
+    # -- callbacks scheduled on the creator, callbacks that raise (callback_excepted); again generated after everything above
+    for name, scn in pg.corpus_cbexc():
+        jobs.append(('explore', (name, scn, cap, rng.randrange(1 << 30)), ctx.model.available))
+    for i in range(30 if not deep else 200):
+        scn = small_random(rng, pg.random_scenario_cbexc)
+        jobs.append(('explore', (f'small-cbexc{i}', scn, 400 if not deep else 3000, rng.randrange(1 << 30)), ctx.model.available))
+    batch = []
+    for i in range(500 if not deep else 8000):
+        batch.append((f'rand-cbexc{i}', pg.random_scenario_cbexc(rng, big=deep), per, rng.randrange(1 << 30)))
+        if len(batch) == 25:
+            jobs.append(('random', batch, ctx.model.available))
+            batch = []
+    if batch:
+        jobs.append(('random', batch, ctx.model.available))
+
     jobs.sort(key=lambda j: j[0] != 'explore')   # the long enumerations first (the inputs do not depend on the order)
     with mp.Pool(ctx.workers) as pool:
         results = [r for rs in pool.imap_unordered(job, jobs, chunksize=1) for r in rs]
@@ -200,7 +230,8 @@ def run(ctx):
     failures, divergences = {}, []
     digests, kinds = set(), {}
     hooks_outside, hooks_inside = set(), set()
-    tot = dict(n_runs=0, n_ops=0, n_div=0, nontrivial=0, n_samples=0, n_cancel=0, n_absorbed_base=0, n_absorbed_cancel=0, n_inline_runs=0)
+    tot = dict(n_runs=0, n_ops=0, n_div=0, nontrivial=0, n_samples=0, n_cancel=0, n_absorbed_base=0, n_absorbed_cancel=0, n_inline_runs=0,
+               n_on_creator=0, n_cbexc=0, n_sandwich=0, n_cbexc_after_sandwich=0)
     exhaustive_scn, capped_scn, leaves = 0, [], 0
     mx = dict(max_nest=0, max_tasks=0, max_procs=0, max_inline=0)
     for r in results:
@@ -266,6 +297,9 @@ def run(ctx):
                         runs_with_inline_awaited_child=tot['n_inline_runs'], max_inline_await_depth=mx['max_inline'],
                         cancel_requests=tot['n_cancel'], baseexceptions_absorbed_by_awaiting_parent=tot['n_absorbed_base'],
                         cancellations_absorbed_by_awaiting_parent=tot['n_absorbed_cancel'],
+                        callbacks_scheduled_on_creator=tot['n_on_creator'], callback_excepted_samples=tot['n_cbexc'],
+                        samples_with_a_process_twice_on_the_stack_around_another=tot['n_sandwich'],
+                        callback_excepted_samples_after_such_a_scope=tot['n_cbexc_after_sandwich'],
                         inline_regression_corpus=inline_stats),
     )
 
